@@ -324,6 +324,10 @@ def match_known(pid, key):
                 if key[k] not in v:
                     ok = False
                     break
+            elif isinstance(v, str) and v.startswith("re:"):
+                if not (isinstance(key[k], str) and re.fullmatch(v[3:], key[k], re.S)):
+                    ok = False
+                    break
             elif key[k] != v:
                 ok = False
                 break
@@ -488,3 +492,28 @@ def nm_defined(staticlib):
                 continue
             syms.add(s)
     return syms
+
+
+def bisect_culprits(items, fails, limit=40):
+    """Minimal culprits: items such that fails([item]) (found by recursive halving of failing sets).
+    `fails(list) -> bool`. Items that only fail in combination are returned as one combined group."""
+    out = []
+
+    def rec(xs):
+        if len(out) >= limit:
+            return
+        if len(xs) == 1:
+            out.append(xs)
+            return
+        h = len(xs) // 2
+        a, b = xs[:h], xs[h:]
+        fa, fb = fails(a), fails(b)
+        if fa:
+            rec(a)
+        if fb:
+            rec(b)
+        if not fa and not fb:
+            out.append(xs)          # only fails together
+    if fails(items):
+        rec(list(items))
+    return out
